@@ -66,7 +66,14 @@ func gate(m int, cb string) error {
 	gates = append(gates, p)
 	mu.Unlock()
 	o := <-p.ch
-	tr.Emit(map[string]any{"e": "end", "m": m, "cb": cb, "ok": o.ok, "h": 0})
+	how := ""
+	if !o.ok {
+		how = "error"
+		if o.how == "panic" {
+			how = "panic"
+		}
+	}
+	tr.Emit(map[string]any{"e": "end", "m": m, "cb": cb, "ok": o.ok, "how": how, "h": 0})
 	if o.ok {
 		return nil
 	}
